@@ -22,7 +22,7 @@ use std::{
 use compio_buf::BufResult;
 use compio_driver::{
     Cancel, DriverType, Key, Proactor, PushEntry, SharedFd,
-    op::{AcceptMulti, Asyncify, Read, SendZc},
+    op::{AcceptMulti, Asyncify, Read, SendZc, Write},
 };
 use hcore::out::{Report, cases_from_arg, panic_msg};
 use hdrv::{
@@ -36,12 +36,14 @@ type ReadOp = Read<TBuf, SharedFd<OwnedFd>>;
 type AccOp = AcceptMulti<SharedFd<UnixListener>>;
 type BlkOp = Asyncify<BlkFn, TBuf>;
 type ZcOp = SendZc<TBuf, SharedFd<socket2::Socket>>;
+type WriteOp = Write<TBuf, SharedFd<OwnedFd>>;
 
 enum AnyKey {
     Read(Key<ReadOp>),
     Acc(Key<AccOp>),
     Blk(Key<BlkOp>),
     Zc(Key<ZcOp>),
+    Write(Key<WriteOp>),
 }
 
 struct OpState {
@@ -62,6 +64,8 @@ struct OpState {
     completed: bool,
     /// the harness made the awaited event happen (pipe fed / gate opened)
     caused: bool,
+    /// a sender (waits for writability) instead of a receiver
+    dir_w: bool,
 }
 
 #[derive(Clone, Debug, PartialEq)]
@@ -77,6 +81,31 @@ fn pipe_nonblock() -> (OwnedFd, OwnedFd) {
     let r = unsafe { libc::pipe2(fds.as_mut_ptr(), libc::O_NONBLOCK | libc::O_CLOEXEC) };
     assert_eq!(r, 0, "pipe2 failed");
     unsafe { (OwnedFd::from_raw_fd(fds[0]), OwnedFd::from_raw_fd(fds[1])) }
+}
+
+/// create the byte channel of model descriptor `pid` on first use: a pipe, or (polling-driver schedules)
+/// a Unix socket pair whose driver-side send buffer is filled when some operation sends on it
+fn ensure_channel(ctx: &mut Ctx, pid: u64, is_poll: bool, fd_has_writer: &dyn Fn(u64) -> bool) {
+    if ctx.pipes.contains_key(&pid) {
+        return;
+    }
+    let (r, w) = if is_poll { socketpair_nonblock() } else { pipe_nonblock() };
+    if is_poll && fd_has_writer(pid) {
+        let junk = [0x5Au8; 512];
+        loop {
+            let n = unsafe { libc::write(r.as_raw_fd(), junk.as_ptr() as _, junk.len()) };
+            if n < 0 {
+                break; // EAGAIN: the send buffer is full, the descriptor is not writable
+            }
+        }
+    }
+    ctx.rawfd2fd.insert(r.as_raw_fd() as u64, pid);
+    ctx.pipes.insert(pid, PipeState {
+        r: SharedFd::new(r),
+        w,
+        pending: Default::default(),
+        feeds: 0,
+    });
 }
 
 /// a read returned `data`: it must be exactly the oldest unread bytes the harness wrote into that pipe
@@ -96,6 +125,21 @@ fn take_pending(pipes: &mut HashMap<u64, PipeState>, pid: u64, data: &[u8]) -> b
 fn raw_prefix(b: &TBuf, n: usize) -> Vec<u8> {
     assert!(n <= b.v.capacity());
     unsafe { std::slice::from_raw_parts(b.v.as_ptr(), n) }.to_vec()
+}
+
+/// nonblocking Unix stream socket pair with small buffers (polling-driver schedules with senders)
+fn socketpair_nonblock() -> (OwnedFd, OwnedFd) {
+    let mut fds = [0i32; 2];
+    let r = unsafe { libc::socketpair(libc::AF_UNIX, libc::SOCK_STREAM | libc::SOCK_NONBLOCK | libc::SOCK_CLOEXEC, 0, fds.as_mut_ptr()) };
+    assert_eq!(r, 0, "socketpair failed");
+    let small: libc::c_int = 4096;
+    for fd in fds {
+        unsafe {
+            libc::setsockopt(fd, libc::SOL_SOCKET, libc::SO_SNDBUF, &small as *const _ as _, 4);
+            libc::setsockopt(fd, libc::SOL_SOCKET, libc::SO_RCVBUF, &small as *const _ as _, 4);
+        }
+    }
+    unsafe { (OwnedFd::from_raw_fd(fds[0]), OwnedFd::from_raw_fd(fds[1])) }
 }
 
 struct PipeState {
@@ -248,6 +292,15 @@ fn settle(driver: &mut Proactor, ctx: &mut Ctx, cursor: &mut usize, ms: u64) -> 
                 readable.push(*pid);
             }
         }
+        // descriptors that are writable: a pending sender on such a descriptor must make progress
+        let mut writable: Vec<u64> = vec![];
+        for (pid, ps) in ctx.pipes.iter() {
+            let mut pfd = libc::pollfd { fd: ps.r.as_raw_fd(), events: libc::POLLOUT, revents: 0 };
+            let n = unsafe { libc::poll(&mut pfd, 1, 0) };
+            if n > 0 && (pfd.revents & libc::POLLOUT) != 0 {
+                writable.push(*pid);
+            }
+        }
         let mut waiting: Vec<usize> = vec![];
         let mut seen_pipe: Vec<u64> = vec![];
         for (i, o) in ctx.ops.iter().enumerate() {
@@ -259,7 +312,9 @@ fn settle(driver: &mut Proactor, ctx: &mut Ctx, cursor: &mut usize, ms: u64) -> 
                 waiting.push(i);
             } else if o.kind == "blocking" && o.caused {
                 waiting.push(i);
-            } else if o.kind == "single" && held && readable.contains(&o.pipe) && !seen_pipe.contains(&o.pipe) {
+            } else if o.kind == "single" && o.dir_w && held && writable.contains(&o.pipe) {
+                waiting.push(i);
+            } else if o.kind == "single" && !o.dir_w && held && readable.contains(&o.pipe) && !seen_pipe.contains(&o.pipe) {
                 seen_pipe.push(o.pipe);
                 waiting.push(i);
             }
@@ -279,6 +334,13 @@ fn run_case(case: &Value, rep: &mut Report, trace_out: &mut Vec<String>, settle_
         .and_then(|f| f.as_object())
         .map(|m| m.iter().map(|(k, v)| (k.clone(), v.as_u64().unwrap())).collect())
         .unwrap_or_default();
+    let dirs: HashMap<String, String> = case
+        .get("dirs")
+        .and_then(|f| f.as_object())
+        .map(|m| m.iter().map(|(k, v)| (k.clone(), v.as_str().unwrap().to_string())).collect())
+        .unwrap_or_default();
+    let writer_fds: Vec<u64> = dirs.iter().filter(|(_, d)| d.as_str() == "w").filter_map(|(o, _)| fdmap.get(o).copied()).collect();
+    let fd_has_writer = move |pid: u64| writer_fds.contains(&pid);
     let site = if is_poll { "poll" } else { "iour" };
     let kinds: HashMap<String, String> =
         case["kinds"].as_object().unwrap().iter().map(|(k, v)| (k.clone(), v.as_str().unwrap().to_string())).collect();
@@ -305,6 +367,7 @@ fn run_case(case: &Value, rep: &mut Report, trace_out: &mut Vec<String>, settle_
                 cancel_dropped: false,
                 completed: false,
                 caused: false,
+                dir_w: false,
             })
             .collect(),
         ptr2op: HashMap::new(),
@@ -361,25 +424,30 @@ fn run_case(case: &Value, rep: &mut Report, trace_out: &mut Vec<String>, settle_
                         // poll: the pipe named by the model's fd number (shared by the ops on that fd);
                         // io_uring model: every op has its own pipe
                         let pid = if is_poll { fdmap[opname] } else { 100 + oi as u64 };
-                        if !ctx.pipes.contains_key(&pid) {
-                            let (r, w) = pipe_nonblock();
-                            ctx.rawfd2fd.insert(r.as_raw_fd() as u64, pid);
-                            ctx.pipes.insert(pid, PipeState {
-                                r: SharedFd::new(r),
-                                w,
-                                pending: Default::default(),
-                                feeds: 0,
-                            });
-                        }
+                        ensure_channel(&mut ctx, pid, is_poll, &fd_has_writer);
                         ctx.ops[oi].pipe = pid;
                         let rfd = ctx.pipes[&pid].r.clone();
-                        let buf = TBuf::with_capacity(oi as u64 + 1, 8);
-                        match d.push(Read::new(rfd, buf)) {
-                            PushEntry::Pending(k) => {
-                                ctx.ops[oi].key = Some(AnyKey::Read(k));
-                                hev("h.hsub", oi, 0);
+                        if dirs.get(opname).map(|d| d == "w").unwrap_or(false) {
+                            ctx.ops[oi].dir_w = true;
+                            // a send on a socket whose send buffer the harness has filled
+                            let payload: Vec<u8> = (0..3u8).map(|i| 0xD0 | i).collect();
+                            let buf = TBuf::from_vec(oi as u64 + 1, payload);
+                            match d.push(Write::new(rfd, buf)) {
+                                PushEntry::Pending(k) => {
+                                    ctx.ops[oi].key = Some(AnyKey::Write(k));
+                                    hev("h.hsub", oi, 0);
+                                }
+                                PushEntry::Ready(_) => panic!("harness: write on a full socket completed at push"),
                             }
-                            PushEntry::Ready(_) => panic!("harness: read on an empty pipe completed at push"),
+                        } else {
+                            let buf = TBuf::with_capacity(oi as u64 + 1, 8);
+                            match d.push(Read::new(rfd, buf)) {
+                                PushEntry::Pending(k) => {
+                                    ctx.ops[oi].key = Some(AnyKey::Read(k));
+                                    hev("h.hsub", oi, 0);
+                                }
+                                PushEntry::Ready(_) => panic!("harness: read on an empty pipe completed at push"),
+                            }
                         }
                     }
                     "multi" => {
@@ -450,22 +518,26 @@ fn run_case(case: &Value, rep: &mut Report, trace_out: &mut Vec<String>, settle_
             "kfinal" | "feed" => {
                 // make the descriptor readable: write a tagged block into the pipe
                 let pid = if act == "feed" { st["fd"].as_u64().unwrap() } else { ctx.ops[oi].pipe };
-                if !ctx.pipes.contains_key(&pid) {
-                    let (r, w) = pipe_nonblock();
-                    ctx.rawfd2fd.insert(r.as_raw_fd() as u64, pid);
-                    ctx.pipes.insert(pid, PipeState {
-                        r: SharedFd::new(r),
-                        w,
-                        pending: Default::default(),
-                        feeds: 0,
-                    });
-                }
+                ensure_channel(&mut ctx, pid, is_poll, &fd_has_writer);
                 let ps = ctx.pipes.get_mut(&pid).unwrap();
                 ps.feeds = ps.feeds.wrapping_add(1);
                 let data: Vec<u8> = (0..3u8).map(|i| ((pid as u8 & 7) << 5) | ((ps.feeds & 7) << 2) | i).collect();
                 let n = unsafe { libc::write(ps.w.as_raw_fd(), data.as_ptr() as _, data.len()) };
                 assert_eq!(n, data.len() as isize, "harness: pipe write failed");
                 ps.pending.extend(data);
+            }
+            "drain" => {
+                // the peer reads everything: the driver-side descriptor becomes writable
+                let pid = st["fd"].as_u64().unwrap();
+                ensure_channel(&mut ctx, pid, is_poll, &fd_has_writer);
+                let ps = ctx.pipes.get_mut(&pid).unwrap();
+                let mut buf = [0u8; 4096];
+                loop {
+                    let n = unsafe { libc::read(ps.w.as_raw_fd(), buf.as_mut_ptr() as _, buf.len()) };
+                    if n <= 0 {
+                        break;
+                    }
+                }
             }
             "kmore" => {
                 let p = ctx.ops[oi].sock_path.clone().expect("listener");
@@ -561,6 +633,20 @@ fn run_case(case: &Value, rep: &mut Report, trace_out: &mut Vec<String>, settle_
                             }
                         }
                     }
+                    AnyKey::Write(k) => match d.pop(k) {
+                        PushEntry::Pending(k) => Some(AnyKey::Write(k)),
+                        PushEntry::Ready(BufResult(res, op)) => {
+                            use compio_buf::IntoInner;
+                            let mut buf = op.into_inner();
+                            buf.taken = true;
+                            let ok = match &res {
+                                Ok(n) => *n == 3 && buf.v == [0xD0, 0xD1, 0xD2],
+                                Err(e) => cancel_req && e.raw_os_error() == Some(libc::ECANCELED),
+                            };
+                            hev("h.hready", oi, ok as u64);
+                            None
+                        }
+                    },
                     AnyKey::Blk(k) => match d.pop(k) {
                         PushEntry::Pending(k) => Some(AnyKey::Blk(k)),
                         PushEntry::Ready(BufResult(res, op)) => {
@@ -601,6 +687,18 @@ fn run_case(case: &Value, rep: &mut Report, trace_out: &mut Vec<String>, settle_
                             hev("h.hready", oi, 1);
                         }
                     }
+                    AnyKey::Write(k) => {
+                        if let Some(BufResult(res, op)) = d.cancel(k) {
+                            use compio_buf::IntoInner;
+                            let mut buf = op.into_inner();
+                            buf.taken = true;
+                            let ok = match &res {
+                                Ok(n) => *n == 3,
+                                Err(e) => e.raw_os_error() == Some(libc::ECANCELED),
+                            };
+                            hev("h.hready", oi, ok as u64);
+                        }
+                    }
                     AnyKey::Zc(k) => {
                         if let Some(BufResult(_res, op)) = d.cancel(k) {
                             use compio_buf::IntoInner;
@@ -626,6 +724,7 @@ fn run_case(case: &Value, rep: &mut Report, trace_out: &mut Vec<String>, settle_
                     AnyKey::Acc(k) => d.register_cancel(k),
                     AnyKey::Blk(k) => d.register_cancel(k),
                     AnyKey::Zc(k) => d.register_cancel(k),
+                    AnyKey::Write(k) => d.register_cancel(k),
                 };
                 ctx.ops[oi].token = Some(t);
             }
